@@ -47,12 +47,16 @@ func (vm *VM) runFunc(fn *Function, vars []reflect.Value) error {
 			}
 			return err
 		}
+		numPanics := 0
+		for p := vm.panic; p != nil; p = p.next {
+			numPanics++
+		}
 		p.next = vm.panic
 		vm.panic = p
 		if len(vm.calls) == 0 {
 			break
 		}
-		vm.calls = append(vm.calls, callFrame{cl: callable{fn: vm.fn}, renderer: vm.renderer, fp: vm.fp, status: panicked})
+		vm.calls = append(vm.calls, callFrame{cl: callable{fn: vm.fn}, renderer: vm.renderer, fp: vm.fp, status: panicked, numPanics: numPanics})
 		vm.fn = nil
 	}
 	if stop != nil {
